@@ -10,3 +10,5 @@ def run(ctx):
     go_chain(ctx, want=('go.complete',))      # end of input reaches the collector whatever was read (empty input, --take 0, scalars only)
     from ..scen_sorter import sorter
     sorter(ctx, want_order=True, want_topn=True)     # a sorter in front of the collector forwards complete() after flushing      # the group is emitted behind --skip/--take only if the limiter forwards complete()
+    from ..conform import conformance
+    conformance(ctx, ['pipeline'])      # the references the obligations are stated against, compared with jawk::go on concrete runs (validates the oracles; never decides)
